@@ -1,8 +1,89 @@
 /-
-  C13 — property theorems (see DESIGN.md §5 C13).
+  C13 — every well-formed `ar` archive (global magic, 60-byte headers with left-justified
+  blank-padded columns, data padded to even length) is read back as exactly its members,
+  and the reader of every member keeps delivering that member's data.
+  Property theorems only; lemmas live in GoDebian/Lemmas/ArHeader.lean, ArBuild.lean.
 -/
 import GoDebian.Model.Deb
 import GoDebian.Spec.Ar
+import GoDebian.Lemmas.ArBuild
 
 namespace GoDebian.Props.C13
+open GoDebian GoDebian.Ar GoDebian.Spec.Ar
+
+/-- Main theorem: iterating `Next` over a well-formed archive ends with `io.EOF` (not an
+    error, not a truncated read) and returns one entry per member, in order, with the
+    member's name (GNU trailing slash removed), numeric columns (blank = 0), mode, size
+    and data. -/
+theorem C13_read_build (ms : List Member) (h : ms.all wfMember = true) :
+    ∃ es, readAll (build ms) = some (es, .eof) ∧ es.map (entryView (build ms)) = ms.map view :=
+  ⟨_, Lemmas.Ar.readAll_build ms h⟩
+
+/-- The hypothesis is satisfiable by an archive exercising the corners of the format:
+    a GNU-style name with an odd-sized member (so a pad byte follows) and a blank
+    timestamp column; an empty member with blank owner column; a name filling all 16
+    bytes of its column, a mode filling all 8, a 12-digit timestamp, 6-digit ids, a name
+    with an inner blank and an inner slash. -/
+example :
+    let B := Bytes.ofString
+    let m1 : Member := ⟨B "a.txt", true, none, some 0, some 0, B "100644", B "hey"⟩
+    let m2 : Member := ⟨B "control.tar.gz", false, some 1700000000, none, some 1000, B "644", []⟩
+    let m3 : Member := ⟨B "sixteen /bytes!!", false, some 999999999999, some 999999, some 999999,
+      B "12345678", B "x\n"⟩
+    let ms := [m1, m2, m3]
+    ms.all wfMember = true ∧
+    build ms = B ("!<arch>\n" ++
+      "a.txt/                      0     0     100644  3         `\nhey\n" ++
+      "control.tar.gz  1700000000        1000  644     0         `\n" ++
+      "sixteen /bytes!!999999999999999999999999123456782         `\nx\n") ∧
+    readAll (build ms) = some (
+      [⟨B "a.txt", 0, 0, 0, B "100644", 3, 8, 68⟩,
+       ⟨B "control.tar.gz", 1700000000, 0, 1000, B "644", 0, 72, 132⟩,
+       ⟨B "sixteen /bytes!!", 999999999999, 999999, 999999, B "12345678", 2, 132, 192⟩], .eof) ∧
+    ms.map view =
+      [⟨B "a.txt", 0, 0, 0, B "100644", 3, B "hey"⟩,
+       ⟨B "control.tar.gz", 1700000000, 0, 1000, B "644", 0, []⟩,
+       ⟨B "sixteen /bytes!!", 999999999999, 999999, 999999, B "12345678", 2, B "x\n"⟩] := by
+  decide +kernel
+
+/-- The empty archive (just the global magic) is well-formed and has no members. -/
+example : ([] : List Member).all wfMember = true ∧ readAll (build []) = some ([], .eof) := by
+  decide +kernel
+
+/-- `wfMember` is not vacuous the other way: members outside it are not read back — a
+    name ending in a slash loses it, a name with a leading blank loses that, a 17-byte
+    name shifts the columns. -/
+example :
+    let B := Bytes.ofString
+    let bad1 : Member := ⟨B "dir/", false, none, none, none, B "644", []⟩
+    let bad2 : Member := ⟨B " x", false, none, none, none, B "644", []⟩
+    let bad3 : Member := ⟨B "seventeen-bytes!!", false, none, none, none, B "644", []⟩
+    wfMember bad1 = false ∧ wfMember bad2 = false ∧ wfMember bad3 = false ∧
+    (readAll (build [bad1])).map (fun r => r.1.map (·.name)) = some [B "dir"] ∧
+    (readAll (build [bad2])).map (fun r => r.1.map (·.name)) = some [B "x"] ∧
+    (readAll (build [bad3])).map (fun r => r.2) = some .bad := by
+  decide +kernel
+
+/-- Readers of earlier members stay valid: what member `i`'s reader delivers is a function
+    of the archive bytes and the entry alone (an offset and a length into immutable
+    bytes: `Ar.data bs e = readAt bs e.dataOff e.size.toNat`), so it equals the member's
+    data whatever has been read since — here, after iteration has run to the end. -/
+theorem C13_member_bytes (ms : List Member) (h : ms.all wfMember = true) (i : Nat)
+    (hi : i < ms.length) :
+    ∃ es, readAll (build ms) = some (es, .eof) ∧
+      ∃ e, es[i]? = some e ∧ Ar.data (build ms) e = (ms[i]).data :=
+  ⟨_, (Lemmas.Ar.readAll_build ms h).1, Lemmas.Ar.build_member_bytes ms h i hi⟩
+
+/-- The first member's reader, used after the whole archive has been iterated, still
+    delivers "hey" (and not the pad byte that follows it). -/
+example :
+    let B := Bytes.ofString
+    let m1 : Member := ⟨B "a.txt", true, none, some 0, some 0, B "100644", B "hey"⟩
+    let m2 : Member := ⟨B "b", false, some 1, none, none, B "644", B "second"⟩
+    let ms := [m1, m2]
+    ms.all wfMember = true ∧
+    (readAll (build ms)).map (fun r => (r.1.map (Ar.data (build ms)), r.2))
+      = some ([B "hey", B "second"], .eof) := by
+  decide +kernel
+
 end GoDebian.Props.C13
